@@ -447,26 +447,46 @@ def strip_given(t):
 
 
 def validate(ctx, traces, with_controls=True):
-    controls = []
+    """-> (rejected trace ids, {id: events explained before the first unexplained one}).
+    Corrupted copies of recorded traces ride along as negative controls.  A control only counts
+    when the trace it was derived from is itself accepted (corrupting a trace that is already wrong
+    -- the code under test may be broken -- can accidentally repair it): an accepted control with an
+    accepted source means the binding is vacuous -> MachineryError."""
+    slim = [strip_given(t) for t in traces]
+    ctl = []            # (source position, corrupted trace)
     if with_controls:
         for how in ("open", "noopen", "has", "blob", "scripts"):
-            for t in traces:
+            n = 0
+            for k, t in enumerate(slim):
                 # zst-dependent member lists accept either verdict: not usable as an 'open' control
                 if how == "open" and any(x.endswith(".zst") for x in t["mem"]):
                     continue
-                c = corrupt(strip_given(t), how)
+                c = corrupt(t, how)
                 if c:
-                    controls.append(c)
-                    break
-    slim = [strip_given(t) for t in traces]
-    acc, _, r = core.validate_traces(ctx, "TraceDebFile", "TraceDebFile.cfg", slim,
-                                     extra_env={"TRACE_DIAG": "0"}, controls=controls,
+                    ctl.append((k, c))
+                    n += 1
+                    if n == 4:
+                        break
+    acc, _, r = core.validate_traces(ctx, "TraceDebFile", "TraceDebFile.cfg", slim + [c for _, c in ctl],
+                                     extra_env={"TRACE_DIAG": "0"},
                                      java_opts=C1 if len(slim) < 1000 else None)
+    effective = 0
+    for j, (k, c) in enumerate(ctl):
+        if (k + 1) in acc:
+            if (len(slim) + j + 1) in acc:
+                raise core.MachineryError("trace module TraceDebFile accepted a corrupted control trace "
+                                          "(derived from accepted trace %d): binding is vacuous" % (k + 1))
+            effective += 1
     rejected = [i for i in range(1, len(traces) + 1) if i not in acc]
+    if with_controls:
+        if effective == 0 and not rejected:
+            raise core.MachineryError("no effective negative control for trace validation")
+        ctx.extra["negative_controls_rejected"] = ctx.extra.get("negative_controls_rejected", 0) + effective
     info = {}
     if rejected:
         sub = [slim[i - 1] for i in rejected[:20]]
-        _, prog, _ = core.validate_traces(ctx, "TraceDebFile", "TraceDebFile.cfg", sub, extra_env={"TRACE_DIAG": "1"})
+        _, prog, _ = core.validate_traces(ctx, "TraceDebFile", "TraceDebFile.cfg", sub, extra_env={"TRACE_DIAG": "1"},
+                                          java_opts=C1)
         for j, i in enumerate(rejected[:20]):
             info[i] = prog.get(j + 1, 0)
     return rejected, info
